@@ -73,7 +73,11 @@ EXTRA_OWNERS = {
     "C20": ("Network._init_morph_jax_spsolve", "Network._append_multiple_synapses"),
     "C09": ("Module.data_set",),
     "C05": ("Module._step_channels_state", "Module._channel_currents", "Module.get_all_parameters"),
-    "C03": ("solve_gate_exponential", "exponential_euler", "solve_inf_gate_exponential"),
+    # the time step that the gates are advanced with travels integrate -> step_fn -> Module.step -> _step_channels(_state) /
+    # _step_synapse -> update_states: the plumbing belongs to C03 as well
+    "C03": ("solve_gate_exponential", "exponential_euler", "solve_inf_gate_exponential", "integrate", "build_init_and_step_fn",
+            "Module.step", "Module._step_channels", "Module._step_channels_state", "Module._step_synapse", "Network._step_synapse",
+            "Network._step_synapse_state"),
     "C14": ("solve_gate_exponential", "exponential_euler", "solve_inf_gate_exponential"),
 }
 
